@@ -13,7 +13,7 @@ from vpkit import common, zoo
 
 ID = "C16"
 N = {"quick": 120, "thorough": 3000}
-BUDGET = {"quick": 240.0, "thorough": 1500.0}
+BUDGET = {"quick": 240.0, "thorough": 700.0}
 RULE = ("case = (contemporaneous zoo input, integer or explicit timepoints, lognorm/gamma, population "
         "size as number / PopulationSizeHistory / dict with 1-5 epochs); distinct by (topology hash, "
         "grid, distribution, history); non-trivial = >=1 non-sample row compared cell by cell")
